@@ -157,6 +157,13 @@ MUTS = {
  'N29-dict-clear-snapshots-evaluated-items': (D, """    items = dict(self.sym_items())
     self._value_spec = None""", """    items = {k: self[k] for k in self.sym_keys()}
     self._value_spec = None"""),
+ 'N30-list-write-reports-the-value-handed-in-not-the-stored-one (seeded C09-15)': (L, """        self._value_spec.element if self._value_spec else None,
+        old_value, new_value)""", """        self._value_spec.element if self._value_spec else None,
+        old_value, value)"""),
+ 'N31-memos-reset-before-any-handler-runs (seeded C09-14)': ('PATCH', 'seeded/C09-14/patch.diff', ''),
+ 'N32-dict-write-reports-the-value-handed-in-not-the-stored-one': (D, """        utils.KeyPath(key, self.sym_path), self._update_target, field,
+        old_value, new_value)""", """        utils.KeyPath(key, self.sym_path), self._update_target, field,
+        old_value, value)"""),
 }
 only = sys.argv[1:]
 for name, (path, old, new) in MUTS.items():
